@@ -992,8 +992,18 @@ run_inverse_ssrb(vh::Rng& rng)
   const int md4 = rng.range((span4 - 1) / 2, R - 1);
   shared_ptr<ProjDataInfo> p4 = vh::make_pdi(scanner, span4, md4, N / 2, 3, false, tof ? 1 : 0);
   shared_ptr<ProjDataInfo> p3;
-  const int kind = rng.range(0, 2);
-  if (kind == 0)
+  const int kind = rng.range(0, 3);
+  float rs3 = scanner->get_ring_spacing();
+  if (kind == 3)
+    { // direct sinograms of a scanner with another ring spacing: the 4D axial positions fall at arbitrary fractions between them
+      const float spacings[] = { 3.F, 2.5F, 5.F, 3.5F };
+      rs3 = spacings[rng.range(0, 3)];
+      shared_ptr<Scanner> scanner3(new Scanner(*scanner));
+      scanner3->set_ring_spacing(rs3);
+      const bool span3 = rng.coin() && R >= 2;
+      p3 = vh::make_pdi(scanner3, span3 ? 3 : 1, span3 ? 1 : 0, N / 2, 3, false, tof ? 1 : 0);
+    }
+  else if (kind == 0)
     p3 = vh::make_pdi(scanner, 1, 0, N / 2, 3, false, tof ? 1 : 0);
   else if (kind == 1 && R >= 2)
     p3 = vh::make_pdi(scanner, 3, 1, N / 2, 3, false, tof ? 1 : 0);
@@ -1011,7 +1021,8 @@ run_inverse_ssrb(vh::Rng& rng)
     {
       ProjDataInMemory d3(ei, p3), d4(ei, p4);
       std::ostringstream o;
-      o << "invssrb " << p4->get_min_tof_pos_num() << " " << p4->get_max_tof_pos_num() << " | " << c3->get_min_ring_difference(0) << ","
+      o << "invssrb " << p4->get_min_tof_pos_num() << " " << p4->get_max_tof_pos_num() << " " << vh::hex(rs3) << " " << vh::hex(scanner->get_ring_spacing())
+        << " | " << c3->get_min_ring_difference(0) << ","
         << c3->get_max_ring_difference(0) << "," << c3->get_num_axial_poss(0) << " | " << c4->get_min_segment_num();
       for (int sg = c4->get_min_segment_num(); sg <= c4->get_max_segment_num(); ++sg)
         o << " " << c4->get_min_ring_difference(sg) << "," << c4->get_max_ring_difference(sg) << "," << c4->get_num_axial_poss(sg);
